@@ -36,13 +36,41 @@ func settable(v reflect.Value) reflect.Value {
 }
 
 func readable(v reflect.Value) reflect.Value {
-	if v.CanInterface() {
-		return v
-	}
 	if v.CanAddr() {
+		if v.CanInterface() {
+			return v
+		}
 		return reflect.NewAt(v.Type(), unsafe.Pointer(v.UnsafeAddr())).Elem()
 	}
+	// not addressable (the dynamic value of an interface, a map element): work on an addressable copy
+	// so that unexported fields below it can be reached
+	if v.CanInterface() && (v.Kind() == reflect.Struct || v.Kind() == reflect.Array) {
+		c := reflect.New(v.Type()).Elem()
+		c.Set(v)
+		return c
+	}
 	return v
+}
+
+// scalarEq compares two values of one basic kind without Interface()
+func scalarEq(a, b reflect.Value) bool {
+	switch a.Kind() {
+	case reflect.Bool:
+		return a.Bool() == b.Bool()
+	case reflect.Int, reflect.Int8, reflect.Int16, reflect.Int32, reflect.Int64:
+		return a.Int() == b.Int()
+	case reflect.Uint, reflect.Uint8, reflect.Uint16, reflect.Uint32, reflect.Uint64, reflect.Uintptr:
+		return a.Uint() == b.Uint()
+	case reflect.Float32, reflect.Float64:
+		return a.Float() == b.Float()
+	case reflect.Complex64, reflect.Complex128:
+		return a.Complex() == b.Complex()
+	case reflect.String:
+		return a.String() == b.String()
+	case reflect.UnsafePointer:
+		return a.Pointer() == b.Pointer()
+	}
+	return false
 }
 
 // fillMode: 0 = everything non-nil; 1 = nested pointers nil; 2 = slices nil; 3 = slices empty; 4 = extreme scalars
@@ -169,7 +197,7 @@ func deepCopyValue(v reflect.Value) reflect.Value {
 		if v.IsNil() {
 			return out
 		}
-		out.Set(v) // interface contents are immutable values in this universe (strings, errors, Person values)
+		out.Set(deepCopyValue(v.Elem()))
 	default:
 		out.Set(v)
 	}
@@ -253,7 +281,7 @@ func deepEq(a, b reflect.Value) bool {
 	case reflect.Chan:
 		return a.Pointer() == b.Pointer()
 	default:
-		return reflect.DeepEqual(a.Interface(), b.Interface())
+		return scalarEq(a, b)
 	}
 }
 
